@@ -48,6 +48,12 @@ CHECKS = {
  "C12": dict(cat="exploration", tech="bounded-exhaustive counted-loop family analysed by the real DetectLoops/AnalyzeSCEV; every claimed add-recurrence and trip count compiled into an instrumented native twin that checks it on all 256 argument vectors (every header evaluation, every activation's body count)",
    text="Every loop of the family (8 shapes x 5 tests x 6 steps x 3 starts x 3 bounds x IV types, plus nested and sibling loops) is analysed with the real code; each {start,+,step} and trip-count claim becomes Go code inside a native twin of the same loop, which compares it with the value the variable really holds at the k-th header evaluation (modulo its width) and with the number of body executions, for every argument vector on which the loop terminates.",
    note="Trusted: native execution; the SCEV-to-Go translation (constants, the two parameters, + - * truncating /, max); non-evaluable claims are counted and skipped.", ref="3/C12"),
+ "C16": dict(cat="exploration", tech="bounded-exhaustive enumeration of directory trees (all subsets <=2/<=3 of a 13-feature menu + the full set) through the built sfw binary (check, check --strict, scan) against an independent walk + go/ast inventory",
+   text="Every tree within the bound is analysed by the real CLI; an independent inventory decides which files must appear exactly once, which must not appear, which functions/methods/function literals must be attributed to their file and line, which files must carry an error, and when strict mode must fail.",
+   note="Trusted: go/parser inventory; a type-error file may be reported with an error or with partial functions.", ref="3/C16"),
+ "C17": dict(cat="exploration", tech="size-grid enumeration of adversarial families on the real analysis entry points with hook counters (zipper equivalence comparisons, SCEV evaluations, renamer invocations); explicit polynomial bounds, growth ratios between consecutive sizes, watchdog on counted operations",
+   text="Each adversarial family is run at growing sizes through the real fingerprinter, topology extraction and zipper; work is read from three build-tag-guarded counters and compared with explicit low-order polynomial bounds and with the growth between consecutive sizes; panics, unguarded oversize inputs and exceeded string caps are violations. Small-program crash-freedom is covered by the program family of C02-C05/C09.",
+   note="Not decided here: the statement's fuzzer-mutated-sources clause (random mutation is sampling, a different family); stated in DESIGN. Trusted: the three counters sit on the routines that dominate the work.", ref="3/C17"),
 }
 NOT_YET = {}
 ALL = ["C%02d" % i for i in range(1, 21)]
